@@ -13,6 +13,7 @@ import (
 	"net/http"
 	"net/http/httptest"
 	"net/url"
+	"strings"
 	"sync"
 	"time"
 
@@ -209,6 +210,59 @@ func breaker() *sched.Instance {
 	return inst
 }
 
+// breakerRecovering: the breaker is driven (sequentially, before the threads start) through trip and fallback into
+// the recovery period; then requests overlap while every admission decision updates the ramp's bookkeeping.
+func breakerRecovering() *sched.Instance {
+	c := &counter{}
+	code := 502
+	h := http.HandlerFunc(func(w http.ResponseWriter, r *http.Request) {
+		c.inc(0)
+		vrt.Yield()
+		w.WriteHeader(code)
+	})
+	cb, err := cbreaker.New(h, "NetworkErrorRatio() > 0.5", cbreaker.FallbackDuration(2*time.Second), cbreaker.RecoveryDuration(10*time.Second))
+	if err != nil {
+		panic(err)
+	}
+	serve(cb)
+	clock.VerifAdvance(200 * time.Millisecond)
+	serve(cb) // trips
+	clock.VerifAdvance(3 * time.Second)
+	first := serve(cb) // fallback elapsed: recovery begins, ramp 0
+	code = 200
+	clock.VerifAdvance(5 * time.Second)
+	prepared := strings.Contains(cb.String(), "recovering") && first == 503
+	before := c.get(0)
+	var codes [4]int
+	inst := &sched.Instance{Names: []string{"req1", "req2", "req3"}}
+	inst.Bodies = []func(){func() { codes[0] = serve(cb) }, func() { codes[1] = serve(cb) }, func() { codes[2] = serve(cb); codes[3] = serve(cb) }}
+	inst.Check = func(*vrt.Exec) []vrt.Failure {
+		if !prepared {
+			return []vrt.Failure{fail("harness:breaker-not-recovering", "the prepared breaker is %s (first request of the recovery got %d)", cb.String(), first)}
+		}
+		passed, refused := 0, 0
+		for _, x := range codes {
+			if x == 200 {
+				passed++
+			} else if x == 503 {
+				refused++
+			}
+		}
+		if passed+refused != 4 || c.get(0)-before != passed {
+			return []vrt.Failure{fail("lost-update:breaker-recovering", "4 overlapping requests during recovery: codes %v, handler invoked %d times", codes, c.get(0)-before)}
+		}
+		// the ramp's own bookkeeping must account for every decision: the request that began recovery + these four
+		a, d := lib.Field(cb, "rc", "allowed"), lib.Field(cb, "rc", "denied")
+		{
+			if a.IsValid() && d.IsValid() && a.Int()+d.Int() != 5 {
+				return []vrt.Failure{fail("lost-update:breaker-ramp-bookkeeping", "5 admission decisions since recovery began, the ramp counted allowed=%d denied=%d", a.Int(), d.Int())}
+			}
+		}
+		return nil
+	}
+	return inst
+}
+
 func rtMetrics() *sched.Instance {
 	m, err := memmetrics.NewRTMetrics()
 	if err != nil {
@@ -382,6 +436,7 @@ func Scenarios(tier string) []*sched.Scenario {
 		mk("rebalancer", b, up, rebalancer),
 		mk("rebalancer-adjusting", b, up, rebalancerAdjusting),
 		mk("breaker", b, up, breaker),
+		mk("breaker-recovering", b, up, breakerRecovering),
 		mk("rtmetrics", b, up, rtMetrics),
 		mk("rtmetrics-export", b, up, rtMetricsExport),
 		mk("tokenlimiter", b, up, tokenLimiter),
